@@ -673,7 +673,8 @@ func run(c *engine.Ctx, r *engine.Report) {
 	// takes its share of the concurrent scenarios
 	depthMem, depthFile := 3, 2
 	if c.Thorough() {
-		depthMem, depthFile = 0, 3 // 0 = fixpoint
+		// (with four ids the full fixpoint has 3^16 model states: depth-bounded)
+		depthMem, depthFile = 4, 3
 	}
 	switch c.Shard {
 	case 0:
@@ -751,7 +752,7 @@ func init() {
 		ID:     "C19",
 		Level:  "model_checking",
 		Binary: "sched",
-		Rule: "sequential: BFS over {store short|long value, remove} x 4 types x ids {a, ab, .a, a.tmp} plus stores under an already cancelled context, nil / typed-nil / unknown-type / empty-id operations on the real inmem, file and store-once back ends (quick depth 3/2, thorough fixpoint/3), state = map model, every transition followed by a full load+list comparison and (states being merged by model contents, which would hide history kept inside a back end) by one further step of each operation on the slot just touched; concurrent: all interleavings (unbounded) of 2 threads x 2 ops and 3 threads x 1 op on the colliding slot ni/a of the in-memory back end under the scheduler, each history checked for linearizability with porcupine; " +
+		Rule: "sequential: BFS over {store short|long value, remove} x 4 types x ids {a, ab, .a, a.tmp} plus stores under an already cancelled context, nil / typed-nil / unknown-type / empty-id operations on the real inmem, file and store-once back ends (quick depth 3/2, thorough depth 4/3), state = map model, every transition followed by a full load+list comparison and (states being merged by model contents, which would hide history kept inside a back end) by one further step of each operation on the slot just touched; concurrent: all interleavings (unbounded) of 2 threads x 2 ops and 3 threads x 1 op on the colliding slot ni/a of the in-memory back end under the scheduler, each history checked for linearizability with porcupine; " +
 			"states = canonical model states of the sequential search; distinct_nontrivial = sequential states + distinct per-scenario concurrent outcomes",
 		Assumptions: []string{"scheduling points are the lock operations of the in-memory back end (sequential consistency in between); unsynchronised accesses are the race companion's job (sampling)", "the result of removing an absent entry is not constrained (back ends differ, the property is silent)"},
 		Shards:      func(c *engine.Ctx) int { return 16 },
